@@ -121,6 +121,18 @@ def gen_scenario(rng, size, big=False):
     sc["prefs"] = {"max_history_items": rng.choice([1, 2, 3])} if k < 0.3 else {}
     # the first session may have kept more history than the second one allows (History.write trims)
     sc["prefs1"] = {} if k < 0.15 else sc["prefs"]
+    # chained crashes: the save of session 2 dies, session 3 continues from the torn disk and saves again
+    if rng.random() < 0.3:
+        sc["session3"] = gen_session(rng, files, folders, rng.randint(0, size))
+        sc["crash"] = {"wi": rng.randint(0, 2), "frac": rng.choice([0.02, 0.3, 0.5, 0.9, 0.999])}
+        sc["use_history2"] = True
+    # the pickle-based contrib.autoimport: third user of the data files ("globalnames")
+    if rng.random() < 0.4:
+        sc["autoimport"] = {"s1": sc["session1"] is not None and rng.random() < 0.6,
+                            "s2": rng.choice(["first", "last", "last", None])}
+        for key in ("session1", "session2"):
+            if sc[key] is not None and rng.random() < 0.6:
+                sc[key].insert(rng.randint(0, len(sc[key])), ["gencache"])
     return sc
 
 
@@ -134,6 +146,15 @@ FIXED_SCENARIOS = [
      "prefs": {"max_history_items": 2}},
     {"session1": [["create", "m.py", MODULES[1]], ["analyze", "m.py"]],
      "session2": [["analyze", "m.py"]], "use_history2": False, "prefs": {}},
+    {"session1": [["create", "m.py", MODULES[1]], ["gencache"]],
+     "session2": [["create", "n.py", MODULES[2]], ["write", "m.py", MODULES[0]], ["analyze", "n.py"]],
+     "use_history2": True, "prefs": {}, "autoimport": {"s1": True, "s2": "first"}},
+    {"session1": [["create", "m.py", MODULES[1]], ["analyze", "m.py"]],
+     "session2": [["write", "m.py", MODULES[0]], ["analyze", "m.py"]], "use_history2": True, "prefs": {},
+     "session3": [["create", "n.py", MODULES[2]], ["analyze", "n.py"]], "crash": {"wi": 1, "frac": 0.5}},
+    {"session1": [["create", "m.py", MODULES[1]], ["analyze", "m.py"]],
+     "session2": [["write", "m.py", MODULES[0]], ["analyze", "m.py"]], "use_history2": True, "prefs": {},
+     "session3": [["undo"]], "crash": {"wi": 0, "frac": 0.3}},
     # three changes kept by session 1, session 2 allows one and performs none: History.write trims
     {"session1": [["create", "m.py", MODULES[2]], ["write", "m.py", MODULES[1]], ["write", "m.py", MODULES[0]]],
      "session2": [["analyze", "m.py"]], "use_history2": True, "prefs1": {}, "prefs": {"max_history_items": 1}},
@@ -179,7 +200,10 @@ def g_obs(o, intern):
 
 
 FILE_TERM = {"objectdb": "(P Objectdb)", "objectdb.json": "(J Objectdb)",
-             "history": "(P History)", "history.json": "(J History)"}
+             "history": "(P History)", "history.json": "(J History)",
+             "globalnames": "(P Globalnames)", "globalnames.json": "(J Globalnames)"}
+DFILE_TERM = {"objectdb": "Objectdb", "history": "History", "globalnames": "Globalnames"}
+EMPTY = {"objectdb": impl.EMPTY_FILES, "history": impl.EMPTY_HISTORY, "globalnames": impl.EMPTY_NAMES}
 HEADER = ("From Coq Require Import List NArith ZArith Bool.\nImport ListNotations.\n"
           "From RopeVerif.C18 Require Import Persist Table Runner.\nOpen Scope N_scope.\n")
 
@@ -204,9 +228,10 @@ class Group:
         for ev in res["trace"]:
             if ev[0] == "open" and ev[1] not in opened:
                 opened.append(ev[1])
-        self.order = [n for n in opened if n in ("objectdb", "history") and self.new.get(n) is not None]
+        self.order = [n for n in opened if n in impl.PICKLES and self.new.get(n) is not None]
         self.unknown_files = [n for n in opened if n not in impl.DATA_FILES]
         self.states, self.reads = [], []
+        self.torn_old = set()
 
     def blob(self, b):
         if b not in self._blob_ix:
@@ -289,8 +314,8 @@ def enc(files):
 
 def oracle_state(g, st, ob, exp, allow_new=False):
     """Independent judgement of one observed crash state. Returns None or (what, file, exc name)."""
-    for name, key in (("objectdb", "odb"), ("history", "hist")):
-        o = ob[key]
+    for name in impl.PICKLES:
+        o = ob[impl.OBS_KEY[name]]
         if o[0] == "raised":
             return ("%s raises %s" % (o[3], o[2]), name, o[2])
         allowed = [exp[name + ":old"], exp[name + ":empty"]]
@@ -323,7 +348,7 @@ def group_term(g):
     for name in g.order:
         pb, jb = g.new[name] or b"", g.new[name + ".json"] or b""
         vi = [t[0] for t in g.table if t[1] == g.blob(pb)]
-        writes.append("(%s, %d, %d, %d)" % ("History" if name == "history" else "Objectdb",
+        writes.append("(%s, %d, %d, %d)" % (DFILE_TERM[name],
                                              vi[0] if vi else 0, g.blob(pb), g.blob(jb)))
     trace = []
     for ev in g.res["trace"]:
@@ -350,14 +375,16 @@ def group_term(g):
                     src[n] = cand
                     break
         states.append("{| cs_wi := %d; cs_stage := %d; cs_np := %d; cs_nj := %d; cs_disk := %s; cs_odb := %s; "
-                      "cs_hist := %s; cs_full := %s |}" % (
+                      "cs_hist := %s; cs_names := %s; cs_full := %s |}" % (
                           st["wi"], st["stage"], st["np"], st["nj"], disk_prefixes(st["files"], src),
-                          g_obs(ob["odb"], g.val), g_obs(ob["hist"], g.val), g_bool(st["full"])))
+                          g_obs(ob["odb"], g.val), g_obs(ob["hist"], g.val), g_obs(ob["names"], g.val),
+                          g_bool(st["full"])))
     reads = []
     for rd, ob in zip(g.reads, g.read_obs):
-        reads.append("{| rc_disk := %s; rc_odb := %s; rc_hist := %s |}" % (
-            disk_prefixes(rd["files"], rd["src"]), g_obs(ob["odb"], g.val), g_obs(ob["hist"], g.val)))
-    old_ids = (g.val(g.exp["objectdb:old"]), g.val(g.exp["history:old"]))
+        reads.append("{| rc_disk := %s; rc_odb := %s; rc_hist := %s; rc_names := %s |}" % (
+            disk_prefixes(rd["files"], rd["src"]), g_obs(ob["odb"], g.val), g_obs(ob["hist"], g.val),
+            g_obs(ob["names"], g.val)))
+    old_ids = (g.val(g.exp["objectdb:old"]), g.val(g.exp["history:old"]), g.val(g.exp["globalnames:old"]))
     d0, final = disk_blobs(g.old), disk_blobs(g.new)
     live = "None"
     if "live_history" in g.res and "history" in g.order:
@@ -372,7 +399,7 @@ def group_term(g):
             " g_writes := [%s];" % "; ".join(writes),
             " g_trace := [%s];" % ";\n   ".join(trace),
             " g_final := %s;" % final,
-            " g_old := (%d, %d);" % old_ids,
+            " g_old := (%d, %d, %d);" % old_ids,
             " g_live := %s;" % live,
             " g_states := [%s];" % ";\n   ".join(states),
             " g_reads := [%s]" % ";\n   ".join(reads),
@@ -383,28 +410,47 @@ def group_term(g):
     return HEADER + "\n".join(body) + "\n"
 
 
-def build_reads(g):
-    """Disks that are not crash states, for the reader's other branches: several objects in a file,
-    a pickled None, a complete pickle followed by a truncated one."""
+# complete pickles of something that is not what the consumer expects (a stale or foreign file). No crash state
+# holds one (C18_reader_total), so they are outside the property; the consumers' behaviour on them is modelled
+# with its exception class and compared.
+FOREIGN = [
+    5, {}, "", "ab", [[]], ([], []), {0: [], 1: []}, {0: [], True: ()}, [5, []], [[5], []], [["ab"], []],
+    [[("Nope", ())], []], [[(1, ())], []], [[("ChangeContents", ("a",))], []], [[("ChangeContents", "abc")], []],
+    [[("MoveResource", ("a", "b"))], []], [[("ChangeSet", ("d", "x"))], []], [[("ChangeSet", ("d", ""))], []],
+    [[("ChangeSet", ("d", [("CreateResource", ("p", 1))]))], [("RemoveResource", ["q", False])]],
+    [[("ChangeSet", ("d", 5, 1.5))], []], [[("ChangeSet",)], []], [[{0: "CreateResource", 1: {"p": 1, "q": 2}}], []],
+    {"m": ["f", "x"]}, {"m.py": 5},
+]
+
+
+def build_reads(g, rng):
+    """Disks that are not crash states, for the reader's and the consumers' other branches: several objects in a
+    file, a pickled None, a complete pickle followed by a truncated one, complete pickles of foreign values."""
     reads = []
     none_p = pickle.dumps(None, 2)
     g.add_pickle(none_p)
     base = dict(g.new)
-    for name in ("history", "objectdb"):
+    for name in impl.PICKLES:
         b = g.new.get(name) or g.old.get(name)
-        if not b:
-            continue
-        other = g.old.get(name) if g.old.get(name) and g.old.get(name) != b else b
-        cat = b + other
-        for n in (len(cat), len(b) + 1, len(b) + 2, len(b) + max(3, len(other) // 2)):
-            if n > len(cat):
-                continue
-            files = dict(base)
-            files[name] = cat[:n]
-            reads.append({"files": files, "src": {name: cat}})
+        if b:
+            other = g.old.get(name) if g.old.get(name) and g.old.get(name) != b else b
+            cat = b + other
+            for n in (len(cat), len(b) + 1, len(b) + 2, len(b) + max(3, len(other) // 2)):
+                if n > len(cat):
+                    continue
+                files = dict(base)
+                files[name] = cat[:n]
+                reads.append({"files": files, "src": {name: cat}})
         files = dict(base)
         files[name] = none_p
         reads.append({"files": files, "src": {name: none_p}})
+    for v in rng.sample(FOREIGN, 8) + FOREIGN[:4]:
+        p = pickle.dumps(v, 2)
+        g.add_pickle(p)
+        for name in ("history", rng.choice(["objectdb", "globalnames"])):
+            files = dict(base)
+            files[name] = p
+            reads.append({"files": files, "src": {name: p}})
     return reads
 
 
@@ -453,18 +499,22 @@ def search_trace_states(ctx, g):
     states = trace_states(res)
     prefs = g.sc.get("prefs") or {}
     ctx.count("trace_derived_crash_states", len(states))
-    chunk = 100
-    for s in range(0, len(states), chunk):
-        part = states[s:s + chunk]
-        obs = impl.observe_states(res["tree"], [enc(st[2]) for st in part], prefs, True)
-        for (i, k, files), ob in zip(part, obs):
-            ctx.case((json.dumps(g.sc, sort_keys=True), "trace", i, k), nontrivial=True)
-            verdict = oracle_state(g, None, ob, g.exp, allow_new=True)
-            if verdict is not None:
-                what, fname, exc = verdict
-                return {"kind": "trace-crash", "scenario": g.sc, "op": i, "byte": k,
-                        "operation": describe_op(res, i), "file": fname, "exception": exc, "observed": what,
-                        "folder": {n: len(c) for n, c in files.items()}}
+    chunk = 60
+    jobs = [(res["tree"], [enc(st[2]) for st in states[s:s + chunk]], prefs, True) for s in range(0, len(states), chunk)]
+    mp = multiprocessing.get_context("fork")
+    with mp.Pool(min(12, os.cpu_count() or 4)) as pool:
+        for ji, obs in enumerate(pool.imap(impl._observe_job, jobs)):
+            for off, ob in enumerate(obs):
+                idx = ji * chunk + off
+                i, k, files = states[idx]
+                ctx.case((json.dumps(g.sc, sort_keys=True), "trace", idx), nontrivial=True)
+                verdict = oracle_state(g, None, ob, g.exp, allow_new=True)
+                if verdict is not None:
+                    what, fname, exc = verdict
+                    pool.terminate()
+                    return {"kind": "trace-crash", "scenario": g.sc, "op": i, "byte": k, "state_index": idx,
+                            "operation": describe_op(res, i), "file": fname, "exception": exc, "observed": what,
+                            "folder": {n: len(c) for n, c in files.items()}}
     return None
 
 
@@ -476,6 +526,45 @@ def replay_obj(g, st, what, fname, exc):
             "prefix_class": g.prefix_class(name, st["np"]) if (st["stage"] == 2 and in_progress == name) else
             ("empty" if st["stage"] == 1 and in_progress == name else "intact"),
             "exception": exc, "observed": what}
+
+
+def register_pickles(g):
+    parents = {n: c.encode("latin-1") for n, c in (g.res.get("parent_pickles") or {}).items()}
+    for name in impl.PICKLES:
+        for src in (g.old, g.new):
+            b = src.get(name)
+            if not b:
+                continue
+            par = parents.get(name)
+            if src is g.old and par is not None and par != b and par.startswith(b):
+                g.add_pickle(par)      # the old file is itself torn (chained crash): a strict prefix of this pickle
+                g.torn_old.add(name)
+            else:
+                g.add_pickle(b)
+
+
+def expectations(g, old_ob, new_ob):
+    """What may come back after a crash: the old version (as rope loads it from the untouched old files), the
+    empty one, the version that was in memory at the save. Returns (exp, errors)."""
+    res = g.res
+    exp, errors = {}, []
+    for name in impl.PICKLES:
+        key = impl.OBS_KEY[name]
+        exp[name + ":empty"] = EMPTY[name]
+        if old_ob[key][0] != "loaded":
+            errors.append("the project as it was before the save cannot be opened (%s)" % old_ob[key][2])
+            exp[name + ":old"] = EMPTY[name]
+        else:
+            exp[name + ":old"] = old_ob[key][1]
+    exp["objectdb:new"] = res["expected_objectdb"]
+    exp["history:new"] = res.get("expected_history", impl.EMPTY_HISTORY)
+    exp["globalnames:new"] = res.get("expected_names", impl.EMPTY_NAMES)
+    # the complete save must read back as what was in memory (independent of the model)
+    for name in impl.PICKLES:
+        key = impl.OBS_KEY[name]
+        if name in g.order and (new_ob[key][0] != "loaded" or new_ob[key][1] != exp[name + ":new"]):
+            errors.append("the completed save of %s does not read back as what was in memory" % name)
+    return exp, errors
 
 
 def process_groups(ctx, scenarios, pool, stride=1):
@@ -492,12 +581,9 @@ def process_groups(ctx, scenarios, pool, stride=1):
                           "C18: rope raises while a project is saved, reopened and used without any crash: " + res["failure"])
             continue
         g = Group(res)
-        for name in ("objectdb", "history"):
-            for src in (g.old, g.new):
-                if src.get(name):
-                    g.add_pickle(src[name])
+        register_pickles(g)
         g.states = build_states(g, ctx.rng, stride=stride)
-        g.reads = build_reads(g)
+        g.reads = build_reads(g, ctx.rng)
         prefs = g.sc.get("prefs") or {}
         chunk = 150
         g.jobs = []
@@ -515,21 +601,7 @@ def process_groups(ctx, scenarios, pool, stride=1):
         g.obs = [o for j in g.jobs for o in outs[j]]
         g.read_obs = outs[g.read_job]
         old_ob, new_ob = outs[g.exp_job]
-        res = g.res
-        g.exp = {"objectdb:empty": impl.EMPTY_FILES, "history:empty": impl.EMPTY_HISTORY}
-        g.setup_errors = []
-        for name, key in (("objectdb", "odb"), ("history", "hist")):
-            if old_ob[key][0] != "loaded":
-                g.setup_errors.append("the project as it was before the save cannot be opened (%s)" % old_ob[key][2])
-                g.exp[name + ":old"] = g.exp[name + ":empty"]
-            else:
-                g.exp[name + ":old"] = old_ob[key][1]
-        g.exp["objectdb:new"] = res["expected_objectdb"]
-        g.exp["history:new"] = res.get("expected_history", impl.EMPTY_HISTORY)
-        # the complete save must read back as what was in memory (independent of the model)
-        for name, key in (("objectdb", "odb"), ("history", "hist")):
-            if name in g.order and (new_ob[key][0] != "loaded" or new_ob[key][1] != g.exp[name + ":new"]):
-                g.setup_errors.append("the completed save of %s does not read back as what was in memory" % name)
+        g.exp, g.setup_errors = expectations(g, old_ob, new_ob)
         bodies.append(group_term(g))
     couts = ctx.coq_files_parallel(bodies)
     for g, out in zip(groups, couts):
@@ -544,6 +616,10 @@ def judge(ctx, g, gi):
     ctx.count("groups")
     ctx.count("writes_per_save:%d" % len(g.order))
     ctx.count("old_state:" + ("absent" if g.old["objectdb"] is None else "present"))
+    if g.torn_old:
+        ctx.count("groups_whose_previous_version_is_torn (chained crash)")
+    if g.sc.get("session3") is not None:
+        ctx.count("groups_third_session_after_crash")
     for a in g.anomalies[:3]:
         ctx.violation({"kind": "pickle-laws", "scenario": g.sc, "observed": a,
                        "broken": "hypothesis good_pickle / unpickle [] = Eof of the C18 theorems does not hold of "
@@ -605,16 +681,16 @@ def judge(ctx, g, gi):
             is_known = (exc == "UnpicklingError" and obj["prefix_class"] == "truncated-inside-pickle-opcode")
             if is_known:
                 # the model of the reader as it stands must predict exactly this (C18_current_reader_partial)
-                bad = code & (16 if fname == "objectdb" else 32) or code & (1 | 2 | 64)
+                bad = code & {"objectdb": 16, "history": 32, "globalnames": 512}[fname] or code & (1 | 2 | 64)
                 if bad:
                     ctx.violation(dict(obj, code=code, broken=BROKEN % "state_code, current reader"),
                                   "C18: failure at a torn state is not the one the model of the current reader predicts",
                                   no_input=True)
             if ctx.violation(obj, "C18: after a crash at byte %d of %s (%s): %s" % (st["np"], in_progress, cls, what)) is False:
                 known += 1
-        elif code & (1 | 2 | 4 | 8 | 64):
+        elif code & (1 | 2 | 4 | 8 | 64 | 256):
             ctx.violation({"kind": "state", "scenario": g.sc, "state": {k: st[k] for k in ("wi", "stage", "np", "nj")},
-                           "code": code, "observed": {"odb": ob["odb"][0], "hist": ob["hist"][0]},
+                           "code": code, "observed": {k: ob[k][0] for k in ("odb", "hist", "names")},
                            "broken": BROKEN % "state_code"},
                           "C18: crash state handled by rope differently from the model (code %d) although the oracle passes" % code,
                           no_input=True)
@@ -627,14 +703,18 @@ def judge(ctx, g, gi):
         code = g.rd_codes.get(ri, 0)
         # the reader as it stands and the repaired one are both acceptable here (these are not crash states);
         # rope must agree with one of the two models on both files
-        if (code & 12) and (code & 48):
+        if (code & (4 | 8 | 256)) and (code & (16 | 32 | 512)):
             ctx.violation({"kind": "read", "scenario": g.sc, "read": ri, "code": code,
                            "files": {n: (None if c is None else len(c)) for n, c in rd["files"].items()},
-                           "observed": {"odb": ob["odb"][:1] + ob["odb"][2:], "hist": ob["hist"][:1] + ob["hist"][2:]},
+                           "observed": {k: ob[k][:1] + ob[k][2:] for k in ("odb", "hist", "names")},
                            "broken": BROKEN % "read_code"},
                           "C18: read_data / consumers differ from the model on a multi-object or non-history file (code %d)" % code,
                           no_input=True)
-        ctx.count("reader_case:" + ("agrees-with-repaired" if not code & 12 else "agrees-with-current" if not code & 48 else "neither"))
+        ctx.count("reader_case:" + ("agrees-with-repaired" if not code & (4 | 8 | 256) else
+                                    "agrees-with-pre-fix-reader" if not code & (16 | 32 | 512) else "neither"))
+        for k in ("odb", "hist", "names"):
+            if ob[k][0] == "raised":
+                ctx.count("reader_case_raises:%s:%s" % (k, ob[k][2]))
 
 
 def run(ctx):
@@ -692,27 +772,24 @@ def replay(ctx, obj):
     if "failure" in res:
         return True
     g = Group(res)
-    for name in ("objectdb", "history"):
-        for src in (g.old, g.new):
-            if src.get(name):
-                g.add_pickle(src[name])
+    register_pickles(g)
     if g.anomalies:
         return True
     prefs = sc.get("prefs") or {}
     old_ob, new_ob = impl.observe_states(res["tree"], [enc(g.old), enc(g.new)], prefs, False)
-    exp = {"objectdb:empty": impl.EMPTY_FILES, "history:empty": impl.EMPTY_HISTORY,
-           "objectdb:new": res["expected_objectdb"], "history:new": res.get("expected_history", impl.EMPTY_HISTORY)}
-    for name, key in (("objectdb", "odb"), ("history", "hist")):
-        exp[name + ":old"] = old_ob[key][1] if old_ob[key][0] == "loaded" else exp[name + ":empty"]
-        if name in g.order and (new_ob[key][0] != "loaded" or new_ob[key][1] != exp[name + ":new"]):
-            return True
+    exp, errors = expectations(g, old_ob, new_ob)
+    if errors:
+        return True
     if kind == "trace-crash":
         g.exp = exp
-        for (i, k, files) in trace_states(res):
-            if (i, k) == (obj["op"], obj["byte"]):
-                ob = impl.observe_states(res["tree"], [enc(files)], prefs, True)[0]
-                return oracle_state(g, None, ob, exp, allow_new=True) is not None
-        return True          # the recorded operation no longer exists: the save changed again
+        states = trace_states(res)
+        idx = obj.get("state_index", -1)
+        cands = [states[idx]] if 0 <= idx < len(states) and states[idx][:2] == (obj["op"], obj["byte"]) else \
+            [st for st in states if st[:2] == (obj["op"], obj["byte"])]
+        if not cands:
+            return True      # the recorded operation no longer exists: the save changed again
+        obs = impl.observe_states(res["tree"], [enc(st[2]) for st in cands], prefs, True)
+        return any(oracle_state(g, None, ob, exp, allow_new=True) is not None for ob in obs)
     if kind != "crash":
         # group / state / read level disagreements carry no failing input of their own: re-run the comparison
         import random
